@@ -291,12 +291,20 @@ def run_asyncio(ex, schedule_fn):
         loop = asyncio.get_running_loop()
 
         async def settle():
+            quiet = False
             for _ in range(3):
                 # run until nobody but us is ready (three rounds: wake-ups scheduled via call_soon chains)
+                quiet = False
                 for _ in range(2000):
                     await asyncio.sleep(0)
                     if len(loop._ready) == 0:
+                        quiet = True
                         break
+            # a task that is still runnable after thousands of turns does not wait for anything: it spins (the asyncio counterpart of
+            # the step budget of the trio runner)
+            ex.spin_rounds = 0 if quiet else getattr(ex, "spin_rounds", 0) + 1
+            if ex.spin_rounds >= 8:
+                ex.livelock = True
 
         ex.tick = lambda dt: setattr(loop, "_vtime", loop._vtime + dt)
         ex.now = lambda: loop._vtime
@@ -312,6 +320,9 @@ def run_asyncio(ex, schedule_fn):
                 c.task = asyncio.ensure_future(runner())
 
             await schedule_fn(ex, spawn, settle)
+            if getattr(ex, "livelock", False):
+                ex.violations.append(("C07:live-lock", {"callers": [(c.idx, c.state) for c in ex.callers if c.state != "done"], "repr": repr(ex.pool),
+                                                        "conns": [c.info() for c in ex.pool.connections], "runtime": "asyncio"}))
             # stop anything still blocked so that the loop can end
             for c in ex.callers:
                 if c.task is not None and not c.task.done():
